@@ -3,6 +3,7 @@ package main
 import (
 	"bytes"
 	"encoding/json"
+	"errors"
 	"fmt"
 	"os"
 	"os/exec"
@@ -190,6 +191,7 @@ type inst struct {
 	recs     []*consumeRec
 	timeouts map[string]int
 	toNames  map[string]enc.Name
+	fatal    map[string]int // Interest name -> fatal results (Nack / engine error) delivered
 	dynUsed  []bool
 	dynLog   []string
 	devUsed  int
@@ -304,7 +306,7 @@ func (s *sys) New() any {
 	vtime.Reset(false)
 	vsched.Reset()
 	return &inst{s: s, ref: map[string]*refPkt{}, removed: map[string]bool{}, pubBytes: map[string][]byte{},
-		timeouts: map[string]int{}, toNames: map[string]enc.Name{}, seen: map[string]bool{}}
+		timeouts: map[string]int{}, toNames: map[string]enc.Name{}, fatal: map[string]int{}, seen: map[string]bool{}}
 }
 
 func (in *inst) setup(sc *scenario) {
@@ -535,6 +537,11 @@ func (in *inst) checkRec(rec *consumeRec) {
 			worst = c
 		}
 	}
+	for n, c := range in.fatal {
+		if c > 0 && pfx.IsPrefix(in.toNames[n]) {
+			return // a Nack or an engine error for one of its Interests is final: failing is legal
+		}
+	}
 	if worst <= retries {
 		in.bad("C15.budget", "fetch fails although no Interest timed out more than Retries times", fmt.Sprintf("%s completed with error %q; the most timeouts any of its Interests had is %d (budget: %d retries = %d transmissions)", rec.tgt, rec.err, worst, retries, retries+1))
 	}
@@ -673,6 +680,23 @@ func (in *inst) timeout(r *request) {
 	in.timeouts[r.nameS]++
 	in.toNames[r.nameS] = r.name
 	r.cb(ndn.ExpressCallbackArgs{Result: ndn.InterestResultTimeout})
+	in.gcNet()
+}
+
+// fatalResult delivers a final non-Data, non-timeout result for a pending Interest whose packet is
+// still in flight: a Nack from the network (the Interest is consumed by it) or an error reported
+// by the engine/face. ExpressR does not retry these.
+func (in *inst) fatalResult(r *request, res ndn.InterestResult) {
+	r.pending, r.flying = false, false
+	in.fatal[r.nameS]++
+	in.toNames[r.nameS] = r.name
+	a := ndn.ExpressCallbackArgs{Result: res}
+	if res == ndn.InterestResultNack {
+		a.NackReason = spec.NackReasonNoRoute
+	} else {
+		a.Error = errors.New("harness: face send error")
+	}
+	r.cb(a)
 	in.gcNet()
 }
 
@@ -925,6 +949,16 @@ func (s *sys) Ops(i any) []explore.Op {
 			add(reqLabel("TO", k, r))
 		}
 	}
+	for k, r := range in.net {
+		if r.pending && r.flying {
+			add(reqLabel("Nack", k, r))
+		}
+	}
+	for k, r := range in.net {
+		if r.pending && r.flying {
+			add(reqLabel("Err", k, r))
+		}
+	}
 	for k, t := range in.sc.Dyn {
 		if !in.dynUsed[k] {
 			add(fmt.Sprintf("Remove@%d(%s)", k, t))
@@ -961,6 +995,10 @@ func (in *inst) one(name string) {
 		in.gcNet()
 	case strings.HasPrefix(name, "TO#"):
 		in.timeout(in.net[idx(name)])
+	case strings.HasPrefix(name, "Nack#"):
+		in.fatalResult(in.net[idx(name)], ndn.InterestResultNack)
+	case strings.HasPrefix(name, "Err#"):
+		in.fatalResult(in.net[idx(name)], ndn.InterestResultError)
 	case strings.HasPrefix(name, "Remove@"):
 		k, _ := strconv.Atoi(name[len("Remove@"):strings.IndexByte(name, '(')])
 		in.dynUsed[k] = true
@@ -1073,6 +1111,14 @@ func (s *sys) Canon(i any) string {
 	sort.Strings(keys)
 	for _, k := range keys {
 		fmt.Fprintf(&b, "to{%s=%d}", k, in.timeouts[k])
+	}
+	keys = keys[:0]
+	for k := range in.fatal {
+		keys = append(keys, k)
+	}
+	sort.Strings(keys)
+	for _, k := range keys {
+		fmt.Fprintf(&b, "fatal{%s=%d}", k, in.fatal[k])
 	}
 	for _, r := range in.net {
 		fmt.Fprintf(&b, "net{%s %v %v %v}", r.nameS, r.cbp, r.pending, r.flying)
